@@ -46,7 +46,7 @@ SPEC = {
             'delivered events (order), queue, parked sets and consumer state are compared; oracle: every arrived entry the '
             'announcement opens was delivered, exactly once per arrival, with its payload and sender; '
             'non-trivial = at least one arrival and one registration; distinct = scenario x schedule; scripted scenarios: arrivals and the two halves of a registration (RegisterChainKey, flush) as ONE thread in a chosen order, so that an arrival (also of an undecryptable message) falls inside the registration window, 4 fixed + 40 (400) random scripts, 4 (12) schedules each; '
-            'window stream (oracle only, no controlled scheduler): the real consumer loop on ONE sender with 1-140 messages (every other case more than the 100 precomputed keys), newest first / reverse / shuffled / a late block first / in order, each entry handled before the next arrives or all at once, the key registered before a chosen arrival; at the end every message the announcement opens was delivered exactly once with its payload, and between paced arrivals every arrived entry is delivered or parked; 24 (400) cases',
+            'window stream (oracle only, no controlled scheduler): the real consumer loop on ONE sender with 1-140 messages (every other case more than the 100 precomputed keys), newest first / reverse / shuffled / a late block first / in order / the newest first and then ONE batch of older ones that ends with an entry which never opens (nothing else arrives), each entry handled before the next arrives or all at once, the key registered before a chosen arrival; at the end every message the announcement opens was delivered exactly once with its payload, and between paced arrivals every arrived entry is delivered or parked; 24 (400) cases',
     'trusted_base': [
         'Coq 8.16.1 kernel; vm_compute for evaluating the model on cases',
         'no axioms',
